@@ -622,7 +622,11 @@ where
         //   error!("Setting waker for {:?}", self.simple_datareader.topic().name());
         // }
         // // DEBUG
+        #[cfg(rustdds_verif)]
+        crate::verif::sched::yp("p1");
         self.simple_datareader.set_waker(Some(cx.waker().clone()));
+        #[cfg(rustdds_verif)]
+        crate::verif::sched::yp("p2");
         match self
           .simple_datareader
           .try_take_one_with(self.decoder.clone())
